@@ -25,6 +25,51 @@ LAWS.append(("integrated attributes never include sibling / declaration",
              "entry (|D| D attribute (?AT_sibling, ?AT_declaration) !(label == D raw attribute label))"))
 
 
+def context_chains(vd, drv, wd):
+    """An integrated attribute is read in the context of the DIE that holds it (Dwarf!FindCtx): DW_AT_const_value
+    in DW_FORM_data1 with all bits set is -1 or 255 by the type of its holder.  Chains of 0 to 4 references
+    (specification / abstract_origin alternating, either one first), the starting DIE and every DIE on the way
+    with a type of the other signedness than the holder's."""
+    sys.path.insert(0, os.path.join(common.VERIF, "gen"))
+    import dwarfgen
+    A = lambda n, f, v=None: {"name": n, "form": f, "value": v}
+    def die(i, tag, attrs, kids=()):
+        return {"id": i, "tag": tag, "children": list(kids), "attrs": attrs}
+    kids = [die(2, 0x24, [A(3, "string", "s8"), A(0x0b, "data1", 1), A(0x3e, "data1", 6)]),
+            die(3, 0x24, [A(3, "string", "u8"), A(0x0b, "data1", 1), A(0x3e, "data1", 8)])]
+    plan = {}
+    nid = 100
+    for holder_signed in (True, False):
+        for depth in range(0, 5):
+            for first in (0x31, 0x47):            # abstract_origin, specification
+                ids = [nid + k for k in range(depth + 1)]
+                nid += depth + 1
+                # ids[0] starts the chain, ids[-1] holds the attribute
+                for k, i in enumerate(ids):
+                    at = []
+                    if k < depth:
+                        at.append(A((first, 0x47 if first == 0x31 else 0x31)[k % 2], "ref4", ids[k + 1]))
+                        at.append(A(0x49, "ref4", 3 if holder_signed else 2))           # a type of its own, the other one
+                    else:
+                        at += [A(3, "string", "h%d" % i), A(0x49, "ref4", 2 if holder_signed else 3), A(0x1c, "data1", 0xff)]
+                    kids.append(die(i, 0x34, at))
+                plan[ids[0]] = (-1 if holder_signed else 255, depth, first)
+    o, offs, _ = dwarfgen.build({"units": [{"kind": "cu", "version": 4, "table": 0, "root": die(1, 0x11, [A(3, "string", "ctx.c")], kids)}]}, wd, "ctxchain")
+    b = D.Built(o, offs)
+    jobs = [(o, "entry (offset == %d) [[@AT_const_value], [attribute ?AT_const_value value], [attribute ?AT_const_value cooked value]]" % b.off[i], False)
+            for i in sorted(plan)]
+    for i, rec in zip(sorted(plan), D.run_queries(drv, jobs, wd, "ctxchain")):
+        want, depth, first = plan[i]
+        vd.cov["evaluations"] += 1
+        key = "const_value found %d reference(s) away (first DW_AT_%s), its holder's type is %s" % (
+            depth, "abstract_origin" if first == 0x31 else "specification", "signed" if want < 0 else "unsigned")
+        if not rec or rec.get("status") != "ok" or len(rec["results"]) != 1:
+            vd.observe(key + ": query failed", {"observed": rec}); continue
+        got = [[int(x["v"]) for x in g["v"] if x["t"] == "cst"] for g in rec["results"][0][-1]["v"]]
+        if got != [[want], [want], [want]]:
+            vd.observe(key + ": @AT_const_value %s, attribute ... value %s, expected %d" % (got[0], got[1], want), {"observed": got})
+
+
 def run(tier):
     vd = common.Verdict(PID, tier)
     wd = common.scratch(PID)
@@ -65,6 +110,12 @@ def run(tier):
         navv += D.gen_forests("altnav", n, wd)
     for n in (4, 5):
         navv += D.gen_forests("navcu", n, wd)       # imported units that are ordinary compile units
+    # self-test of the model: with the reading context of the pinned find_attribute (chains of two or more
+    # references read in the context of the DIE they started from) AttrOK fails
+    pv = D.gen_forests("attr", 3, wd, pinned={"PinnedCtx": True})
+    if all(v["ok"]["attr"] for v in pv):
+        raise common.ToolError("Dwarf.tla: PinnedCtx is not caught by AttrOK")
+    context_chains(vd, drv, wd)
     badm = [v for v in allv if not v["ok"]["attr"]]
     if badm:
         vd.observe("model:find_attribute and attribute_producer disagree", {"forest": badm[0]["forest"]})
@@ -170,7 +221,7 @@ def run(tier):
                      "up to %d hops, both references on one DIE in either stored order, attributes shadowed at an intermediate hop, "
                      "sibling / declaration present); tla/Dwarf.tla: attribute_producer = own + integrated attributes, agrees with "
                      "find_attribute; per forest the cooked and raw attribute lists (names, and the DIE an integrated name / line "
-                     "comes from) are compared with the model and %d zero-result law queries run (@AT_x, ?AT_x, name, ?TAG_x, "
+                     "comes from) are compared with the model (Dwarf!FindCtx: an integrated attribute is read in the context of the DIE that holds it -- const_value chains of depth 0..4 with a type of the other signedness on the way) and %d zero-result law queries run (@AT_x, ?AT_x, name, ?TAG_x, "
                      "?FORM_x, long vs short aliases); family nav: cooked children and unit listing vs the model; the laws on 12 "
                      "sample files" % (3 if tier == "quick" else 4, len(LAWS)), exhaustive=True)
 
